@@ -18,6 +18,7 @@ from . import c13_req as REQ
 from . import c13_wsgi as WSGI
 from . import c13_file as FILE
 from . import c13_fsched as FS
+from . import c13_cov as COV
 
 PROPERTY = 'C13'
 LEAN_TARGETS = ['CpProofs.C13', 'drv_c13']
@@ -294,10 +295,12 @@ def run_ramn_case(case):
 
 
 def _enum_chunk(args):
-    case, actors, order, bound, horizon, sweeps = args
+    case, actors, order, bound, horizon, sweeps, preemptors = args
     items = []
     for o, pre in enum_policies(actors, bound, horizon):
         if o != order:
+            continue
+        if preemptors is not None and any(a not in preemptors for a in pre.values()):
             continue
         o0, trace, final, obs = N.run_policy(case, list(order), pre, sweeps=sweeps)
         items.append((case, o0, trace, final, obs))
@@ -315,11 +318,20 @@ def ramn_stream(ctx, variants, n_random, n_window, preempt_bound, compare=True):
     for name, cache, tbl in INITS[:4]:                   # one id, two requests, one sweeper
         case = {'kind': 'ramn', 'ids': [[cache, tbl]], 'thrs': [[0, 'm'], [0, 'm']], 'nsw': 1, 'init': name}
         for order in itertools.permutations(['0', '1', 'S0']):
-            chunks.append((case, ['0', '1', 'S0'], order, preempt_bound, 26, 1))
-    if ctx.quick():
-        results = [_enum_chunk(c) for c in chunks]
-    else:
-        results = common.parallel_map(_enum_chunk, chunks)
+            chunks.append((case, ['0', '1', 'S0'], order, preempt_bound, 26, 1, None))
+    # two ids (independence), a request that regenerates inside the lock, two concurrent sweepers
+    two_ids = {'kind': 'ramn', 'ids': [[[5, 0], True], [[7, 0], True]], 'thrs': [[0, 'm'], [1, 'm']], 'nsw': 1,
+               'init': 'two-ids'}
+    regen = {'kind': 'ramn', 'ids': [[[5, 0], True]], 'thrs': [[0, 'mgm'], [0, 'm']], 'nsw': 1, 'init': 'regen'}
+    for order in itertools.permutations(['0', '1', 'S0']):
+        chunks.append((two_ids, ['0', '1', 'S0'], order, preempt_bound, 34, 1, None))
+        chunks.append((regen, ['0', '1', 'S0'], order, preempt_bound, 40, 1, None))
+    two_sw = {'kind': 'ramn', 'ids': [[[5, 0], True]], 'thrs': [[0, 'm'], [0, 'm']], 'nsw': 2, 'init': 'two-sweepers'}
+    for order in itertools.permutations(['0', '1', 'S0', 'S1']):
+        # quick: only the sweepers pre-empt (the windows of C13-F21 open between two sweeps)
+        chunks.append((two_sw, ['0', '1', 'S0', 'S1'], order, preempt_bound, 26 if ctx.quick() else 30, 1,
+                       ['S0', 'S1'] if ctx.quick() else None))
+    results = common.parallel_map(_enum_chunk, chunks, procs=8 if ctx.quick() else None)
     count = 0
     for its in results:
         count += len(its)
@@ -338,7 +350,8 @@ def plan_shape(p):
 
 
 def check_req(ctx, plans, compare=True):
-    plans = [p for p in plans if REQ.well_behaved(p)]
+    # a file session never gets a second lock on its own path: only with lock_timeout (targeted plans)
+    plans = [p for p in plans if REQ.well_behaved(p) or not p['file'] or p.get('lockTimeout')]
     lines = [REQ.plan_line(p) for p in plans]
     model = ctx.model(lines) if compare else None
     for idx, p in enumerate(plans):
@@ -364,8 +377,15 @@ def check_req(ctx, plans, compare=True):
             ctx.count('req:save_fails')
         if 'B:1' in j:
             ctx.count('req:locked_while_body_is_sent')
+        if p.get('afterReq'):
+            ctx.count('req:after_request_listener_fails')
         shape = plan_shape(p)
-        if r['leaked'] or r['locked_end'] or not j.endswith('E:0:0'):
+        sloppy = not REQ.well_behaved(p)
+        if sloppy:
+            ctx.count('req:handler_acquires_twice_or_releases_unheld/' + ('file' if p['file'] else 'ram'))
+        # a handler that re-acquires the re-entrant RAM lock leaves it held (C13_double_acquire_leaks_ram):
+        # outside the statement; a file session cannot do that (LockTimeout), so there the statement applies
+        if (r['leaked'] or r['locked_end'] or not j.endswith('E:0:0')) and (not sloppy or p['file']):
             ctx.oracle_fail(p, 'after the request ended (close() called) the session lock is still held: '
                                'journal %s, held lock objects/files %s, Session.locked=%s  [%s]'
                             % (j, r['leaked'], r['locked_end'], shape),
@@ -404,15 +424,27 @@ def targeted_plans(rng):
                 out.append(dict(s, saveFails=True))                                 # deferred save raises
                 out.append(dict(s, saveFails=True, eer=[[30, False, 'exc']]))
                 out.append(dict(s, eer=[[10, False, 'exc'], [70, True, 'http']]))
-            out.append(dict(b, gen=True, genTouch=True, genRaise=True))             # collapse_body raises in save
+            out.append(dict(b, gen=True, genTouch=True, genRaise=True))             # generator raises (tools.encode reads it)
+            out.append(dict(b, gen=True, genTouch=True, genRaise=True, noEncode=True))   # collapse_body raises in save
+            out.append(dict(b, gen=True, genTouch=True, noEncode=True))
+            out.append(dict(b, brb=[[10, False, 'http']]))                          # fails before sessions.init: no session
             out.append(dict(b, bf=[[10, False, 'exc']]))                            # hook before save fails
             out.append(dict(b, bf=[[70, False, 'http']], eer=[[55, False, 'exc']]))
             out.append(dict(b, bh=[[70, False, 'exc']], eer=[[10, False, 'exc']]))  # fails after the lock hook
             out.append(dict(b, brb=[[70, False, 'exc']], eer=[[10, False, 'exc']]))
             out.append(dict(b, oer='exc'))
+            out.append(dict(b, afterReq=True))                                      # 'after_request' listener raises
+            out.append(dict(b, afterReq=True, out='exc', eer=[[10, False, 'exc']]))
+            out.append(dict(b, afterReq=True, stream=True, gen=True, genTouch=True, consume='abandon'))
             if mode != 'explicit':
                 out.append(dict(b, acts=['touch', 'release', 'acquire', 'touch']))
                 out.append(dict(b, acts=['release']))
+                out.append(dict(b, acts=['touch', 'acquire'], lockTimeout=True))    # acquires the lock it holds
+            else:
+                out.append(dict(b, acts=['acquire', 'touch', 'acquire'], lockTimeout=True))
+                out.append(dict(b, acts=['release']))                               # releases without acquire
+                out.append(dict(b, acts=['acquire', 'touch', 'release', 'release'], lockTimeout=not file))
+                out.append(dict(b, acts=['acquire', 'touch']))                      # never releases
     return out
 
 
@@ -566,7 +598,7 @@ def fsched_stream(ctx, n_random, preempt_bound, compare=True):
     chunks = [(name, file0, prefix, order, preempt_bound)
               for name, file0, prefix in FS.INITS[:3]
               for order in itertools.permutations(['0', '1', 'S'])]
-    results = [_fenum_chunk(c) for c in chunks] if ctx.quick() else common.parallel_map(_fenum_chunk, chunks)
+    results = common.parallel_map(_fenum_chunk, chunks, procs=8 if ctx.quick() else None)
     count = 0
     for its in results:
         count += len(its)
@@ -640,6 +672,42 @@ def detect_variants(ctx=None):
     return v
 
 
+def coverage_pass(ctx, variants):
+    """A representative sample of every kind of case under a line tracer restricted to the anchored
+    functions (oracle + comparison run as usual on these cases too)."""
+    import random
+    rng = random.Random(1300 + ctx.rng.randrange(1000))
+    N.DEBUG = FS.DEBUG = True
+    try:
+        _coverage_pass(ctx, variants, rng)
+    finally:
+        N.DEBUG = FS.DEBUG = False
+
+
+def _coverage_pass(ctx, variants, rng):
+    with COV.Tracer() as tr:
+        ctx.extra['cleanup_monitors_started_by_two_ram_subclasses'] = COV.probe_monitors()
+        items = [run_ramn_case(F21_WITNESS)]
+        items += [run_ramn_case(gen_ramn_random(rng)) for _ in range(30)]
+        items += [run_ramn_case(gen_ramn_window(rng)) for _ in range(8)]
+        if variants.get('memcached'):
+            items += [run_ramn_case(gen_ramn_random(rng, 'memcached')) for _ in range(10)]
+        check_ramn(ctx, items, variants)
+        fitems = []
+        for g in [FS.gen_random] * 20 + [FS.gen_timeout] * 20:
+            case = g(rng)
+            fitems.append((case,) + FS.run_case(case))
+        check_fsched(ctx, fitems)
+        check_req(ctx, [dict(p, debug=(i % 2 == 0)) for i, p in enumerate(targeted_plans(rng))]
+                  + [dict(REQ.gen_plan(rng)) for _ in range(30)])
+        check_wsgi(ctx, wsgi_systematic()[::9])
+    total, missing = tr.report()
+    ctx.extra['anchored_lines_total'] = total
+    ctx.extra['anchored_lines_not_executed'] = missing
+    ctx.note('anchored functions: %d executable lines, %d never executed (%d without a recorded reason)'
+             % (total, len(missing), len([m for m in missing if not m['why']])))
+
+
 def run(ctx):
     _setup_cherrypy()
     variants = detect_variants(ctx)
@@ -656,6 +724,8 @@ def run(ctx):
         nonlocal t0
         ctx.note('%s: %.1fs' % (name, _t.time() - t0))
         t0 = _t.time()
+    coverage_pass(ctx, variants)
+    lap('coverage pass')
     ramn_stream(ctx, variants, ctx.budget(150, 6000), ctx.budget(150, 6000), ctx.budget(1, 2))
     lap('ram schedules')
     fsched_stream(ctx, ctx.budget(150, 6000), ctx.budget(1, 2))
